@@ -1,7 +1,126 @@
-import ArchSim.Model.Toy
+/-
+C06 — TOY execution matches the reference accumulator machine, including self-modification.
+
+The reference machine is `ArchSim/Spec/ToyRef.lean` (`RefSt`, `refStep`, `refInit`): 4096 × 16-bit
+memory, 16-bit accumulator and 12-bit pc as `BitVec`s, one instruction per step, fetched from
+memory when executed. The simulator model (`ArchSim/Model/Toy.lean`) keeps a pre-loaded instruction
+object and a pre-incremented pc and splits each instruction into two half-cycles.
+
+`abs` (abstraction at instruction boundaries) and `BInv` (boundary invariant: `next_cycle = 1`, TOY
+memory configuration, `accu < 2^16`, `pc < 2^12`, and the loaded instruction — if any — is the
+decoding of the *current* memory word at `pc − 1`) are defined in `ArchSim/Lemmas/ToyRefine.lean`.
+`stepT t = (stepCall t).t` is the state after `step()`, `iter f n` is `n`-fold iteration.
+
+Finding on the "stale instruction register" question: there is no divergence. The instruction
+register is reloaded in the *second* half-cycle, after the store of the first half-cycle, and
+nothing writes memory between that reload and the execution of the reloaded instruction; so at
+every instruction boundary the register equals the decoding of the current memory word (this is
+the last clause of `BInv`, proved invariant in `toy_refines`). The invariant is necessary, not an
+artefact: see the `example` after `toy_refines` (a state whose register disagrees with memory
+does *not* refine the reference machine).
+
+Property theorems only.
+-/
+import ArchSim.Lemmas.ToyCorollaries
+
 namespace ArchSim.Props.C06
-open ArchSim.Toy
-/-- Decoding never produces an opcode above 12. -/
-theorem decode_opcode_le (w : Nat) : (decode w).opcode ≤ 12 := by
-  unfold decode; simp only; split <;> omega
+open ArchSim ArchSim.Toy ArchSim.ToyRef
+
+/-- Refinement. From any instruction-boundary state satisfying `BInv`, for every number `n` of
+    `step()` calls: the abstraction of the simulator state equals `n` steps of the reference
+    machine from the abstraction of the start state (accumulator, pc, whole memory, `maxPc`,
+    halted flag, instruction/cycle/branch counters); the invariant still holds (in particular the
+    instruction register is never stale); `is_done()` is the reference machine's `halted`; and none
+    of the `step()` calls raises. No bound on `n`, the program or the memory image. -/
+theorem toy_refines (t : TSim) (h : BInv t) (n : Nat) :
+    abs (iter stepT n t) = iter refStep n (abs t) ∧
+    BInv (iter stepT n t) ∧
+    isDone (iter stepT n t) = (iter refStep n (abs t)).halted ∧
+    (stepCall (iter stepT n t)).err = false := by
+  have h1 := iter_refines h n
+  have h2 := BInv_iter h n
+  refine ⟨h1, h2, ?_, ?_⟩
+  · rw [← h1]; rfl
+  · rw [stepCall_boundary h2.1]
+
+/-- Non-vacuity: the self-modifying `demoSelfMod` (`LDA 4; STO 2; NOP; NOP`, `mem[4] = 0x9000`) satisfies `BInv`; after three steps the overwritten
+    instruction has executed as `INC` (accumulator `0x9001`), and after four it is done. -/
+example : BInv demoSelfMod ∧ (iter stepT 3 demoSelfMod).s.accu = 0x9001 ∧ isDone (iter stepT 3 demoSelfMod) = false ∧
+    isDone (iter stepT 4 demoSelfMod) = true := by decide
+
+/-- The invariant is needed: a boundary state whose instruction register (`INC`) disagrees with
+    the memory word it was supposedly loaded from (`NOP`) takes a step that the reference machine
+    does not take. Such a state is unreachable through the API (by `toy_refines`). -/
+example : ∃ t : TSim, t.nextCycle = 1 ∧ ¬ BInv t ∧ (abs (stepT t)).accu ≠ (refStep (abs t)).accu :=
+  ⟨{ s := { (loadImage {} [⟨12, 0⟩] []).s with loaded := some ⟨9, 0⟩ } }, by decide⟩
+
+/-- One step, spelled out (the case `n = 1` of `toy_refines` without iteration): one `step()` of
+    the simulator is one instruction of the reference machine. -/
+theorem toy_step_refines (t : TSim) (h : BInv t) :
+    abs (stepCall t).t = refStep (abs t) ∧ BInv (stepCall t).t ∧ (stepCall t).err = false :=
+  ⟨(step_refines h).1, (step_refines h).2, by rw [stepCall_boundary h.1]⟩
+
+/-- Programs. For every instruction list of at most 4096 instructions whose first element is a
+    proper instruction object (opcode ≤ 12, address < 4096 — what the assembler constructs) and
+    every list of data words, loaded into a simulation object at a boundary: the loaded state
+    satisfies `BInv`, its abstraction is the reference machine's initial state `refInit`
+    (accumulator 0, pc 0, instruction `k` at address `k` over the data words, halted iff the
+    program is empty), and therefore `n` calls of `step()` — or `run()` with fuel `n` — end in a
+    state whose abstraction is `n` reference steps from `refInit`. -/
+theorem toy_refines_program (t0 : TSim) (instrs : List TInstr) (data : List (Nat × Nat))
+    (h1 : t0.nextCycle = 1) (hlen : instrs.length ≤ 4096)
+    (hhead : ∀ i, instrs.head? = some i → i.opcode ≤ 12 ∧ i.addr < 4096) (n : Nat) :
+    BInv (loadImage t0 instrs data) ∧
+    abs (loadImage t0 instrs data) = refInit instrs.length (fun k => encode (instrs.getD k default)) data ∧
+    abs (iter stepT n (loadImage t0 instrs data))
+      = iter refStep n (refInit instrs.length (fun k => encode (instrs.getD k default)) data) ∧
+    abs (run n (loadImage t0 instrs data))
+      = iter refStep n (refInit instrs.length (fun k => encode (instrs.getD k default)) data) := by
+  have hb := BInv_loadImage t0 h1 instrs data hlen hhead
+  have ha := abs_loadImage t0 instrs data hlen
+  have hr := iter_refines hb n
+  rw [ha] at hr
+  exact ⟨hb, ha, hr, by rw [run_eq_iter_all hb.1, hr]⟩
+
+/-- Non-vacuity: `demoSelfMod` is such a load. -/
+example : demoSelfMod = loadImage {} [⟨1, 4⟩, ⟨0, 2⟩, ⟨12, 0⟩, ⟨12, 0⟩] [(4, 0x9000)] ∧
+    ([⟨1, 4⟩, ⟨0, 2⟩, ⟨12, 0⟩, ⟨12, 0⟩] : List TInstr).length ≤ 4096 := ⟨rfl, by decide⟩
+
+/-- Counters. From any boundary state, across any number `n` of `step()` calls: a step on a
+    running simulation counts exactly one instruction and two cycles, a step on a finished one
+    changes nothing; hence the cycles added are exactly twice the instructions added, at most `n`
+    instructions are added, and exactly `n` if the simulation is still running after them. -/
+theorem cycles_two_per_instruction (t : TSim) (h1 : t.nextCycle = 1) (n : Nat) :
+    (isDone t = false → (stepT t).s.instrs = t.s.instrs + 1 ∧ (stepT t).s.cycles = t.s.cycles + 2) ∧
+    (isDone t = true → stepT t = t) ∧
+    (iter stepT n t).s.cycles + 2 * t.s.instrs = t.s.cycles + 2 * (iter stepT n t).s.instrs ∧
+    t.s.instrs ≤ (iter stepT n t).s.instrs ∧ (iter stepT n t).s.instrs ≤ t.s.instrs + n ∧
+    (isDone (iter stepT n t) = false → (iter stepT n t).s.instrs = t.s.instrs + n) := by
+  have ⟨a, b, c⟩ := iter_counters h1 n
+  exact ⟨(stepT_counters h1).1, (stepT_counters h1).2, c, a, b, iter_instrs_running h1 n⟩
+
+example : (iter stepT 9 demoSelfMod).s.instrs = 4 ∧ (iter stepT 9 demoSelfMod).s.cycles = 8 := by decide
+
+/-- Stores into the program area change what executes next: if the loaded instruction is `STO a`
+    with `a` the address of the next instruction (and that address is still inside the program),
+    then after the step the loaded instruction is the decoding of the accumulator, not of the old
+    memory word. (The general statement — every fetch sees all earlier stores — is the refinement
+    itself, since `refStep` fetches from memory.) -/
+theorem store_seen_by_next_fetch (t : TSim) (h : BInv t) (i : TInstr) (hl : t.s.loaded = some i)
+    (hop : i.opcode = 0) (haddr : i.addr = t.s.pc) (hin : (t.s.pc : Int) ≤ t.s.maxPc.getD (-1)) :
+    (stepCall t).t.s.loaded = some (decode t.s.accu) :=
+  sto_next h hl hop haddr hin
+
+/-- Non-vacuity: after one step `demoSelfMod` is exactly in this situation, and the `NOP` at address 2
+    is replaced by `INC` in the instruction register. -/
+example : let t := stepT demoSelfMod
+    BInv t ∧ t.s.loaded = some ⟨0, 2⟩ ∧ t.s.pc = 2 ∧ (t.s.pc : Int) ≤ t.s.maxPc.getD (-1) ∧
+    (stepT t).s.loaded = some ⟨9, 0⟩ := by decide
+
+/-- The reference machine's documented effects on sample values (sanity of the specification):
+    ADD and INC wrap at 2^16, SUB and DEC wrap below 0, NOT is the 16-bit complement, opcodes 12–15
+    do nothing, and the pc wraps at 2^12. -/
+example : alu 3 0xFFFF 2 = 1 ∧ alu 9 0xFFFF 0 = 0 ∧ alu 4 0 1 = 0xFFFF ∧ alu 10 0 0 = 0xFFFF ∧
+    alu 8 0x00FF 0 = 0xFF00 ∧ alu 12 7 9 = 7 ∧ alu 15 7 9 = 7 ∧ (0xFFF : BitVec 12) + 1 = 0 := by decide
+
 end ArchSim.Props.C06
